@@ -102,9 +102,29 @@ theorem C19_gate (f : Flags) (r : Results) (hmc : 0 ≤ f.maxCycles) : exitZero 
   · rintro ⟨⟨⟨⟨h1, h2⟩, h3⟩, h4⟩, hs⟩; exact ⟨⟨by omega, h1⟩, ⟨by omega, h2⟩, ⟨by omega, h3⟩, ⟨by omega, h4⟩⟩
   · rintro ⟨⟨a0, h1⟩, ⟨b0, h2⟩, ⟨c0, h3⟩, ⟨d0, h4⟩⟩; exact ⟨⟨⟨⟨h1, h2⟩, h3⟩, h4⟩, by omega⟩
 
-/-- **C19 (clones).** Clone findings — or a failing clone analysis — never change the exit status. -/
+/-- **C19 (clones).** Clone findings never change the exit status of `runCheck` — and neither does a failing clone analysis, which is MORE than the
+property allows (see `specExitZero`, `C19_clone_error_deviation`). -/
 theorem C19_clones_never_fail (f : Flags) (r : Results) (x : Option Nat) :
     exitZero f { r with clones := x } = exitZero f r := rfl
+
+/-- **The property's own reading** of "exits non-zero … when an analysis could not run": a selected clone analysis that FAILS also makes the
+gate fail (clone *findings* still never do). `exitZero` is what `runCheck` does; this is what C19 states. -/
+def specExitZero (f : Flags) (r : Results) : Bool :=
+  exitZero f r && !(enabled f .clones && r.clones.isNone)
+
+/-- the implementation agrees with the property whenever the clone analysis is not selected or could run … -/
+theorem C19_spec_agrees (f : Flags) (r : Results) (h : enabled f .clones = false ∨ r.clones.isSome = true) :
+    specExitZero f r = exitZero f r := by
+  unfold specExitZero
+  rcases h with h | h
+  · simp [h]
+  · cases hc : r.clones <;> simp_all
+
+/-- … and deviates exactly at the remaining point: **C19 is false of the implementation there** (finding F54, replayed on the real binary by the check:
+`pyscn check --select clones <missing dir>` exits 0). The upstream comment at that line says the failure is deliberately "not a hard error". -/
+theorem C19_clone_error_deviation :
+    ∃ (f : Flags) (r : Results), enabled f .clones = true ∧ r.clones = none ∧ exitZero f r = true ∧ specExitZero f r = false :=
+  ⟨{ select := [.clones] }, { cx := none, dead := none, clones := none, cycles := none, mock := none }, by decide, rfl, by decide, by decide⟩
 
 /-- **C19 (threshold).** Effective maximum complexity: the explicit flag, else the config value when positive,
 else the flag's default (10, pinned by `C19_facts`). -/
